@@ -481,7 +481,8 @@ def penalize(A: spmatrix,
     # Nothing needs doing for mass matrix, but RHS vector needs penalty factor
     if isinstance(b, spmatrix):
         return Aout, b if overwrite else b.copy()
-    bout = b if overwrite else b.astype(np.result_type(b, x))
+    # the penalised entries are quotients: floating also for integer b and x
+    bout = b if overwrite else b.astype(np.result_type(b, x, np.float32))
     bout[D] = x[D] / epsilon
     return Aout, bout
 
